@@ -27,6 +27,7 @@ COMPONENTS = {
 
 def gen_case(tp, tier):
     feat = {'tempo_clocks': True, 'sends': True, 'bind': True, 'embed': True,
+            'inf_wait': True,
             'odd_deltas': tp.draw(3) == 0}
     prog = rprog.gen(tp, feat, tier)
     # main-thread sends (outside any routine), interleaved with sleeps
@@ -194,7 +195,10 @@ def run_nrt(case, tape, emit):
             els = [rprog.mk_el(e, -1) for e in op[2]]
             it.send('main', 'bundle', op[1], op[2],
                     lambda: it.addr.send_bundle(op[1], *els))
-    score = main.process(case['tail'])
+    try:
+        score = main.process(case['tail'])
+    except Exception as e:
+        return W.nrt_failed(e, it.trace, w)
     return {'outcome': 'ok', 'trace': it.trace, 'score': score.list,
             'raw': bytes(score.raw).hex(), 'elapsed': main.elapsed_time(),
             'errors': [r[:3] for r in w.error_logs()]}
@@ -535,6 +539,8 @@ def run_case(case, tape, ctx):
     agg = W.combine([rt])
     if rt['outcome'] != 'ok':
         return W.result(viol, agg, outcome=rt['outcome'])
+    if W.process_raised(viol, 'C07-5', nrt):
+        return W.result(viol, agg)
     check_rt(case, rt, viol, stats)
     check_nrt(case, nrt, viol, stats, False)
     nb = sum(1 for r in case['prog']['routines'] for st in r['body']
